@@ -54,10 +54,15 @@ def msgCodepoint : String := "unicode codepoint is too high for this escape sequ
 def msgDoubleInSingle : String := "double quotes do not have to be escaped when inside single quoted strings"
 def msgSingleInDouble : String := "single quotes do not have to be escaped when inside double quoted strings"
 
-/-- `captures[2][1..2].parse::<u16>().unwrap_or(0)`: the *second* character of group 2 -/
-def secondDigit : List Char → Nat
-  | _ :: c :: _ => if isDec c then decVal c else 0
-  | _ => 0
+/-- `captures[2].chars().take_while(char::is_ascii_digit).take(2)` -/
+def leadingDecimals : List Char → Nat → List Char
+  | _, 0 => []
+  | [], _ => []
+  | c :: cs, n + 1 => if isDec c then c :: leadingDecimals cs n else []
+
+def decNat : List Char → Nat → Nat
+  | [], acc => acc
+  | c :: cs, acc => decNat cs (acc * 10 + decVal c)
 
 /-- the `match &captures[1]` (rs:108-221): `(start, end, message)` relative to the literal's token -/
 def capDiag (roblox : Bool) (q : QuoteKind) (c : Cap) : Option (Nat × Nat × String) :=
@@ -71,13 +76,11 @@ def capDiag (roblox : Bool) (q : QuoteKind) (c : Cap) : Option (Nat × Nat × St
       if c.g2.isEmpty || hexNat c.g2 0 > 0x10ffff then some (start, start + c.g2.length + 4, msgCodepoint)
       else none
   | [d] =>
-    if d = 'a' || d = 'b' || d = 'f' || d = 'n' || d = 'r' || d = 't' || d = 'v' || d = '\\' then none
+    if d = 'a' || d = 'b' || d = 'f' || d = 'n' || d = 'r' || d = 't' || d = 'v' || d = '\\' || d = '\r' then none
     else if isDec d then
-      if c.g2.length > 1 then
-        let hundreds := decVal d * 100
-        let tens := secondDigit c.g2
-        if hundreds + tens > 0xff then some (start, start + 4, msgDecimal) else none
-      else none
+      -- the first digit plus at most two more decimal digits; reported iff three digits above 255
+      let digits := d :: leadingDecimals c.g2 2
+      if digits.length == 3 && decNat digits 0 > 0xff then some (start, start + 4, msgDecimal) else none
     else if d = '"' then
       (if q = .single then some (start, start + 2, msgDoubleInSingle) else none)
     else if d = '\'' then
@@ -86,7 +89,7 @@ def capDiag (roblox : Bool) (q : QuoteKind) (c : Cap) : Option (Nat × Nat × St
       (if !roblox then some (start, start + 2, msgInvalid) else none)
     else if d = 'x' then
       if !roblox then some (start, start + 2, msgInvalid)
-      else if c.g2.length != 2 then some (start, start + c.g2.length + 2, msgMalformed)
+      else if c.g2.length < 2 then some (start, start + c.g2.length + 2, msgMalformed)
       else none
     else some (start, start + 1 + d.utf8Size, msgInvalid)
   | _ => none
